@@ -14,8 +14,11 @@
     header height; the parent's `SetLastUpdatedHeight` in deleteSub is never stored;
   * `Int64()` truncations and int64 additions are `wrap64`;
   * a zero per-block fee divides by zero (Go panic) = `Err.crash`;
-  * nothing from `Validate` is re-checked (DeliverTx does not call it): amounts here are OLT
-    amounts (the OLT-only rule lives in `Validate`), names may be invalid.
+  * DeliverTx calls `handler.Validate` before `ProcessDeliver` (app/controller.go txDeliverer):
+    `validate` ports its state-independent checks (signer field = address of the signing key,
+    signature verifies, fee price ≥ minimum, name well-formed, payment in the chain currency,
+    amount validity); a rejected transaction runs neither the handler nor the fee step.
+    Balances are per (address, currency): DOMAIN_SEND may pay in any registered currency.
   The fee step (`action.BasicFeeHandling`) charges `Fee.Price * usedGas` to the first signer;
   gas metering itself is layer K, so the used gas / fee-step failure class is an input (`FeeObs`).
 -/
@@ -26,6 +29,8 @@ open OLP
 
 abbrev Addr := String          -- lower-case hex of the address bytes; "" = empty / nil address
 abbrev Name := List String     -- labels, e.g. ["sub","foo","ol"] for "sub.foo.ol"
+abbrev Cur := String           -- currency name
+abbrev Acct := Addr × Cur      -- a balance record `b_<addr>_<currency>`
 
 /-- data/ons/domain.go `Domain` (the name is the key) -/
 structure Domain where
@@ -60,25 +65,29 @@ structure Env where
   opts : Opts            -- ctx.GovernanceStore.GetONSOptions()
   feePrice : Int         -- signedTx.Fee.Price (OLT)
   fee : FeeObs
-  payer : Addr           -- address of signedTx.Signatures[0].Signer
+  payer : Addr           -- address of signedTx.Signatures[0].Signer (the key that signed)
+  sigValid : Bool        -- that key's signature verifies over the raw transaction (crypto is a parameter)
+  minFee : Int           -- fees.FeeOption.MinFee()
+  olt : Cur              -- name of currency id 0 (= the fee currency)
+  currencies : List Cur  -- registered currencies
 deriving Repr
 
 structure St where
   recs : List (Name × Domain)   -- what a reader of the deliver state sees under `d_`
   tree : List Name              -- names whose key is in the committed tree (last commit)
-  bals : List (Addr × Int)      -- OLT balances `b_<addr>_OLT`
+  bals : List (Acct × Int)      -- balances `b_<addr>_<currency>`
   pool : Int                    -- fee pool `f_00000000000000000000`
 deriving Repr
 
 def St.empty : St := ⟨[], [], [], 0⟩
 
 inductive Tx
-  | create (owner benef : Addr) (name : Name) (uri : String) (uriOk : Bool) (price : Int)
+  | create (owner benef : Addr) (name : Name) (uri : String) (uriOk : Bool) (price : Int) (cur : Cur)
   | update (owner benef : Addr) (name : Name) (active : Bool) (uri : String) (uriOk : Bool)
-  | sale (owner : Addr) (name : Name) (price : Int) (cancel : Bool)
-  | purchase (buyer account : Addr) (name : Name) (offering : Int)
-  | send (sender : Addr) (name : Name) (amount : Int)
-  | renew (owner : Addr) (name : Name) (price : Int)
+  | sale (owner : Addr) (name : Name) (price : Int) (cur : Cur) (cancel : Bool)
+  | purchase (buyer account : Addr) (name : Name) (offering : Int) (cur : Cur)
+  | send (sender : Addr) (name : Name) (amount : Int) (cur : Cur)
+  | renew (owner : Addr) (name : Name) (price : Int) (cur : Cur)
   | deleteSub (owner : Addr) (name : Name)
 deriving DecidableEq, Repr
 
@@ -96,10 +105,18 @@ def Tx.name : Tx → Name
   | .create _ _ n .. => n
   | .update _ _ n .. => n
   | .sale _ n .. => n
-  | .purchase _ _ n _ => n
-  | .send _ n _ => n
-  | .renew _ n _ => n
+  | .purchase _ _ n .. => n
+  | .send _ n .. => n
+  | .renew _ n .. => n
   | .deleteSub _ n => n
+
+/-- the currency of the payment a kind carries for the name itself (send is a plain transfer) -/
+def Tx.payCur : Tx → Option Cur
+  | .create _ _ _ _ _ _ c => some c
+  | .sale _ _ _ c _ => some c
+  | .purchase _ _ _ _ c => some c
+  | .renew _ _ _ c => some c
+  | _ => none
 
 inductive Err
   | priceTooLow      -- create: price ≤ base; sale / renew: price ≤ perBlock; expired purchase: offering < base
@@ -119,6 +136,12 @@ inductive Err
   | invalidAmount    -- send / sale: negative amount
   | inactive         -- send
   | noBeneficiary    -- send
+  | vSigner          -- Validate: signer field ≠ address of the signing key (ErrUnmatchSigner)
+  | vSignature       -- Validate: signature does not verify
+  | vFee             -- Validate: fee price below the minimum
+  | vMissing         -- Validate: empty name (ErrMissingData)
+  | vBadName         -- Validate: ErrInvalidDomain (ill-formed name; sub-name for sale / renew)
+  | vBadAmount       -- Validate: ErrInvalidAmount (not the chain currency; unregistered currency or negative amount)
   | feeGas           -- fee step: gas overflow
   | feeDebit         -- fee step: charge not covered
   | crash            -- Go panic (division by zero, nil sale price)
@@ -180,13 +203,13 @@ def eraseSel (p : Name → Bool) : List (Name × Domain) → List (Name × Domai
 
 /-! ## balances -/
 
-def bal (b : List (Addr × Int)) (a : Addr) : Int := (alookup a b).getD 0
+def bal (b : List (Acct × Int)) (a : Acct) : Int := (alookup a b).getD 0
 
 /-- balance.Store.MinusFromAddress / Coin.Minus: refuses a negative result -/
-def debit (b : List (Addr × Int)) (a : Addr) (x : Int) : Option (List (Addr × Int)) :=
+def debit (b : List (Acct × Int)) (a : Acct) (x : Int) : Option (List (Acct × Int)) :=
   if bal b a - x < 0 then none else some (upsert b a (bal b a - x))
 
-def credit (b : List (Addr × Int)) (a : Addr) (x : Int) : List (Addr × Int) := upsert b a (bal b a + x)
+def credit (b : List (Acct × Int)) (a : Acct) (x : Int) : List (Acct × Int) := upsert b a (bal b a + x)
 
 /-! ## domain.go helpers -/
 
@@ -206,10 +229,10 @@ def blocksBought (payment base perBlock : Int) : Int := (payment - base) / perBl
 
 /-- action/ons/create.go runCreate -/
 def runCreate (env : Env) (s : St) (owner benef : Addr) (name : Name) (uri : String) (uriOk : Bool)
-    (price : Int) : Except Err St :=
+    (price : Int) (cur : Cur) : Except Err St :=
   if price ≤ env.opts.base then .error .priceTooLow else
   if (alookup name s.recs).isSome then .error .exists_ else
-  match debit s.bals owner price with
+  match debit s.bals (owner, cur) price with
   | none => .error .debit
   | some b1 =>
     if !(nameAllowed env.opts name && validName name) then .error .badName else
@@ -246,10 +269,10 @@ def runUpdate (env : Env) (s : St) (owner benef : Addr) (name : Name) (active : 
     .ok { s with recs := upsert recs1 name d' }
 
 /-- action/ons/sale.go runDomainSale -/
-def runSale (env : Env) (s : St) (owner : Addr) (name : Name) (price : Int) (cancel : Bool) :
+def runSale (env : Env) (s : St) (owner : Addr) (name : Name) (price : Int) (cur : Cur) (cancel : Bool) :
     Except Err St :=
   if price ≤ env.opts.perBlock then .error .priceTooLow else
-  if price < 0 then .error .invalidAmount else
+  if price < 0 || !env.currencies.contains cur then .error .invalidAmount else
   if isSub name then .error .isSub else
   match alookup name s.recs with
   | none => .error .notFound
@@ -267,15 +290,15 @@ def resetAfterSale (d : Domain) (buyer account : Addr) (nBlocks cur : Int) : Dom
            owner := buyer, salePrice := none, lastUpdate := cur, active := true, uri := "", onSale := false }
 
 /-- action/ons/purchase.go runPurchaseDomain -/
-def runPurchase (env : Env) (s : St) (buyer account : Addr) (name : Name) (offering : Int) :
+def runPurchase (env : Env) (s : St) (buyer account : Addr) (name : Name) (offering : Int) (cur : Cur) :
     Except Err St :=
   match alookup name s.recs with
   | none => .error .notFound
   | some d =>
     if !d.onSale && decide (env.version ≤ d.expire) then .error .notForSale else
     if isSub name then .error .isSub else
-    let finish (b1 : List (Addr × Int)) (remain extend : Int) : Except Err St :=
-      match debit b1 buyer remain with
+    let finish (b1 : List (Acct × Int)) (remain extend : Int) : Except Err St :=
+      match debit b1 (buyer, cur) remain with
       | none => .error .debit
       | some b2 =>
         let d' := resetAfterSale d buyer account extend env.version
@@ -286,10 +309,10 @@ def runPurchase (env : Env) (s : St) (buyer account : Addr) (name : Name) (offer
       | none => .error .crash
       | some sale =>
         if !decide (sale ≤ offering) then .error .offerTooLow else
-        match debit s.bals buyer sale with
+        match debit s.bals (buyer, cur) sale with
         | none => .error .debit
         | some b0 =>
-          let b1 := credit b0 d.owner sale
+          let b1 := credit b0 (d.owner, cur) sale
           if env.opts.perBlock = 0 then .error .crash else
           finish b1 (offering - sale) (wrap64 ((offering - sale) / env.opts.perBlock))
     else
@@ -298,8 +321,8 @@ def runPurchase (env : Env) (s : St) (buyer account : Addr) (name : Name) (offer
       finish s.bals offering (wrap64 (blocksBought offering env.opts.base env.opts.perBlock))
 
 /-- action/ons/send.go runDomainSend -/
-def runSend (env : Env) (s : St) (sender : Addr) (name : Name) (amount : Int) : Except Err St :=
-  if amount < 0 then .error .invalidAmount else
+def runSend (env : Env) (s : St) (sender : Addr) (name : Name) (amount : Int) (cur : Cur) : Except Err St :=
+  if amount < 0 || !env.currencies.contains cur then .error .invalidAmount else
   match alookup name s.recs with
   | none => .error .notFound
   | some d =>
@@ -307,12 +330,12 @@ def runSend (env : Env) (s : St) (sender : Addr) (name : Name) (amount : Int) : 
     if expiredAt d env.version then .error .expired else
     if !activeAt d env.version then .error .inactive else
     if d.benef.isEmpty then .error .noBeneficiary else
-    match debit s.bals sender amount with
+    match debit s.bals (sender, cur) amount with
     | none => .error .debit
-    | some b1 => .ok { s with bals := credit b1 d.benef amount }
+    | some b1 => .ok { s with bals := credit b1 (d.benef, cur) amount }
 
 /-- action/ons/renew.go runRenew -/
-def runRenew (env : Env) (s : St) (owner : Addr) (name : Name) (price : Int) : Except Err St :=
+def runRenew (env : Env) (s : St) (owner : Addr) (name : Name) (price : Int) (cur : Cur) : Except Err St :=
   if price ≤ env.opts.perBlock then .error .priceTooLow else
   if isSub name then .error .isSub else
   match alookup name s.recs with
@@ -321,7 +344,7 @@ def runRenew (env : Env) (s : St) (owner : Addr) (name : Name) (price : Int) : E
     if !changeable d env.height then .error .notChangeable else
     if expiredAt d env.version then .error .expired else
     if d.owner ≠ owner then .error .notOwner else
-    match debit s.bals owner price with
+    match debit s.bals (owner, cur) price with
     | none => .error .debit
     | some b1 =>
       if price < env.opts.perBlock then .error .priceTooLow else
@@ -347,13 +370,53 @@ def runDeleteSub (env : Env) (s : St) (owner : Addr) (name : Name) : Except Err 
       .ok { s with recs := eraseSel (visSub s.tree name) s.recs }
 
 def handler (env : Env) (s : St) : Tx → Except Err St
-  | .create o b n u uo p => runCreate env s o b n u uo p
+  | .create o b n u uo p c => runCreate env s o b n u uo p c
   | .update o b n a u uo => runUpdate env s o b n a u uo
-  | .sale o n p c => runSale env s o n p c
-  | .purchase b a n o => runPurchase env s b a n o
-  | .send f n a => runSend env s f n a
-  | .renew o n p => runRenew env s o n p
+  | .sale o n p cu c => runSale env s o n p cu c
+  | .purchase b a n o c => runPurchase env s b a n o c
+  | .send f n a c => runSend env s f n a c
+  | .renew o n p c => runRenew env s o n p c
   | .deleteSub o n => runDeleteSub env s o n
+
+/-- `Amount.IsValid`: registered currency and a non-negative value -/
+def amountValid (env : Env) (x : Int) (cur : Cur) : Bool := env.currencies.contains cur && decide (0 ≤ x)
+
+/-- the kind-specific part of `Validate` (action/ons/*.go), in the order of the Go code -/
+def validateKind (env : Env) : Tx → Except Err Unit
+  | .create _ _ n _ _ _ cur =>
+    if n = [""] then .error .vMissing else
+    if !validName n then .error .vBadName else
+    if cur ≠ env.olt then .error .vBadAmount else .ok ()
+  | .update _ _ n _ _ _ =>
+    if n = [""] then .error .vMissing else
+    if !validName n then .error .vBadName else .ok ()
+  | .sale _ n p cur _ =>
+    if !amountValid env p cur then .error .vBadAmount else
+    if n = [""] then .error .vMissing else
+    if !validName n || isSub n then .error .vBadName else
+    if cur ≠ env.olt then .error .vBadAmount else .ok ()
+  | .purchase _ _ n _ cur =>
+    if cur ≠ env.olt then .error .vBadAmount else
+    if n = [""] then .error .vMissing else
+    if !validName n then .error .vBadName else .ok ()
+  | .send _ n a cur =>
+    if !amountValid env a cur then .error .vBadAmount else
+    if n = [""] then .error .vMissing else .ok ()
+  | .renew _ n _ cur =>
+    if n = [""] then .error .vMissing else
+    if !validName n || isSub n then .error .vBadName else
+    if cur ≠ env.olt then .error .vBadAmount else .ok ()
+  | .deleteSub _ n =>
+    if n = [""] then .error .vMissing else
+    if !validName n then .error .vBadName else .ok ()
+
+/-- `Validate`: action.ValidateBasic (one signer: the signer field must be the address of the key
+    that signed, and the signature must verify), action.ValidateFee, then the kind's own checks -/
+def validate (env : Env) (tx : Tx) : Except Err Unit :=
+  if env.payer ≠ tx.signer then .error .vSigner else
+  if !env.sigValid then .error .vSignature else
+  if env.feePrice < env.minFee then .error .vFee else
+  validateKind env tx
 
 /-- action/base.go BasicFeeHandling (gas metering observed, see `FeeObs`) -/
 def feeStep (env : Env) (s : St) : Except Err St :=
@@ -361,18 +424,22 @@ def feeStep (env : Env) (s : St) : Except Err St :=
   | .gasOverflow => .error .feeGas
   | .noFunds => .error .feeDebit
   | .used g =>
-    match debit s.bals env.payer (env.feePrice * g) with
+    match debit s.bals (env.payer, env.olt) (env.feePrice * g) with
     | none => .error .feeDebit
     | some b1 => .ok { s with bals := b1, pool := s.pool + env.feePrice * g }
 
-/-- one DeliverTx: handler, then fee step; any failure discards the session (app/controller.go txDeliverer) -/
+/-- one DeliverTx: Validate, handler, fee step; any failure discards the session
+    (app/controller.go txDeliverer) -/
 def step (env : Env) (s : St) (tx : Tx) : Res × St :=
-  match handler env s tx with
+  match validate env tx with
   | .error e => (.fail e, s)
-  | .ok s1 =>
-    match feeStep env s1 with
+  | .ok _ =>
+    match handler env s tx with
     | .error e => (.fail e, s)
-    | .ok s2 => (.ok, s2)
+    | .ok s1 =>
+      match feeStep env s1 with
+      | .error e => (.fail e, s)
+      | .ok s2 => (.ok, s2)
 
 /-! ## histories -/
 
@@ -418,8 +485,8 @@ def subsCommitted (s : St) (root : Name) : Bool :=
 /-- the two handlers that must reach *every* sub-name (purchase deletes them, renew moves their
     expiry) do see them -/
 def cascadeSees (s : St) : Tx → Bool
-  | .purchase _ _ n _ => subsCommitted s n
-  | .renew _ n _ => subsCommitted s n
+  | .purchase _ _ n _ _ => subsCommitted s n
+  | .renew _ n _ _ => subsCommitted s n
   | _ => true
 
 /-- `cascadeSees` at every transaction of a history -/
@@ -436,10 +503,10 @@ inductive Auth (env : Env) (s : St) (tx : Tx) (n : Name) : Prop
   | ownerAbove (r : Name) (p : Domain) : isSubOf n r = true → alookup r s.recs = some p →
       p.owner = tx.signer → Auth env s tx n
   /-- first registration of an absent, non-sub name; the signer becomes the owner -/
-  | registration (b : Addr) (u : String) (uo : Bool) (p : Int) : alookup n s.recs = none →
-      isSub n = false → tx = .create tx.signer b n u uo p → Auth env s tx n
+  | registration (b : Addr) (u : String) (uo : Bool) (p : Int) (c : Cur) : alookup n s.recs = none →
+      isSub n = false → tx = .create tx.signer b n u uo p c → Auth env s tx n
   /-- purchase of the name (or of the name `n` is a sub-name of) that is on sale or expired -/
-  | purchase (b a : Addr) (r : Name) (o : Int) (d : Domain) : tx = .purchase b a r o →
+  | purchase (b a : Addr) (r : Name) (o : Int) (c : Cur) (d : Domain) : tx = .purchase b a r o c →
       (r = n ∨ isSubOf n r = true) → isSub r = false → alookup r s.recs = some d →
       (d.onSale = true ∨ d.expire < env.version) → Auth env s tx n
 
